@@ -61,6 +61,10 @@ pub struct Sc {
     /// It is killed before its first rename, so only its temporary file holds that content.
     #[serde(default)]
     pub pre_crash_clock_ahead: i64,
+    /// The cache directory also holds files that are none of the tool's business: backups and
+    /// copies with plausible names and WRONG rates, a note, an editor's swap file.
+    #[serde(default)]
+    pub junk_files: bool,
     /// Set by minimisation: explore this single crash point only.
     pub only_state: Option<CrashPoint>,
     pub hash_seed: u64,
@@ -171,6 +175,7 @@ pub fn generate(seed: u64, tier: Tier) -> Sc {
             None
         },
         only_state: None,
+        junk_files: r.chance(1, 4),
         hash_seed: r.next_u64(),
         pre_crash_clock_ahead: if r.chance(1, 2) { *r.pick(&[3i64, 10, 25, 60]) } else { 0 },
     }
@@ -577,6 +582,22 @@ impl Engine for C14 {
             with_world(|w| w.fs.disk = debris);
             st.bump("probe.earlier_run_was_killed_too");
         }
+        if sc.junk_files {
+            let y = pd(&sc.victim.lookup).year();
+            let mut wrong = String::new();
+            let mut day = ymd(y, 1, 1);
+            while day.year() == y {
+                wrong.push_str(&format!("{},9.87654\n", day));
+                day += Duration::days(1);
+            }
+            with_world(|w| {
+                for name in [format!("rates-{}.csv.bak", y), format!("rates-{}.csv.old", y), format!("rates-{} (copy).csv", y), format!("Rates-{}.CSV", y), format!(".rates-{}.csv.swp", y)] {
+                    w.fs.disk.put_file(&format!("{}/{}", CACHE_DIR, name), wrong.as_bytes());
+                }
+                w.fs.disk.put_file(&format!("{}/notes.txt", CACHE_DIR), b"remember to check 2021\n");
+            });
+            st.bump("probe.cache_directory_also_holds_foreign_files_with_wrong_rates");
+        }
         let d0 = with_world(|w| w.fs.disk.clone());
         let victim = run_step(&boc, &sc.victim, sc.max_write, sc.hash_seed);
         st.bump("sim.processes");
@@ -875,6 +896,11 @@ impl Engine for C14 {
             s.pre_crash = None;
             c.push(s);
         }
+        if sc.junk_files {
+            let mut s = sc.clone();
+            s.junk_files = false;
+            c.push(s);
+        }
         if sc.second_crash_every > 0 {
             let mut s = sc.clone();
             s.second_crash_every = 0;
@@ -994,6 +1020,7 @@ impl Engine for C14 {
             "fault.later_day_run_killed_while_writing_too",
             "fault.write_error_disk_full",
             "fault.clock_set_ahead_in_an_earlier_killed_run",
+            "probe.cache_directory_also_holds_foreign_files_with_wrong_rates",
         ];
         let _ = tier;
         v
